@@ -67,3 +67,22 @@ Definition wop_no_prefix (p : key) (o : wop) : wop :=
   | WPut k v => WPut (no_prefix k p) v
   | WDel k => WDel (no_prefix k p)
   end.
+
+(* reflect.go: uniqKeys.  Add keeps the minimum key length; Check compares all pairs of keys
+   truncated to that length and reports an error when two are equal.
+   (OpenTables returns Check(); MigrateTables defers it and drops the result.) *)
+Definition uniq_min (keys : list key) : nat :=
+  match keys with
+  | [] => O
+  | k :: r => fold_left (fun n k' => if (length k' <? n)%nat then length k' else n) r (length k)
+  end.
+Fixpoint uniq_pairs_ok (L : nat) (keys : list key) : bool :=
+  match keys with
+  | [] => true
+  | a :: r => forallb (fun b => negb (bytes_eqb (firstn L a) (firstn L b))) r && uniq_pairs_ok L r
+  end.
+Definition uniq_check (keys : list key) : bool := uniq_pairs_ok (uniq_min keys) keys.
+
+(* the struct tags MigrateTables/OpenTables act on: `table:""` and `table:"-"` are skipped *)
+Definition table_tags (tags : list key) : list key :=
+  filter (fun k => match k with [] => false | _ => negb (bytes_eqb k [45%N]) end) tags.
